@@ -57,6 +57,11 @@ CHECKS = {
             "For each route length the single-failure positions are enumerated as explicit air fault rules (by transmitting node and network frame type); write()'s return value and duration at the origin are compared with the chip model's record of first-hop acceptance and with the sniffer's record of NETWORK_ACK frames stored by the origin's radio; NETWORK_ACK originations at the delivering router are counted per forwarded copy.",
             "Trusts chip/air model M1-M4, M7, M9; a NETWORK_ACK unread in the FIFO at the deadline counts as a legitimate timeout (margin in evidence).",
             "5 C13"),
+    "C15": ("exploration",
+            "deterministic simulation: a sweep of forged frames (types x lengths x destination/origin classes x roles/levels) and seeded frame sequences injected by a scripted radio into a lone real node whose neighbours are absent; direct evaluation of the address predicate over all 65536 values",
+            "Forged, truncated and random frames are put on the simulated air by an injector chip and received through the real node's radio model and update(); the harness observes exceptions, virtual time per update() against a budget derived from tx_timeout and the retry set-up (neighbours absent, so forwarding runs into its time-outs), queue entries and transmissions. The validity predicate sub-clause is a pure function evaluated directly (labelled direct_evaluation in evidence).",
+            "Documented validity predicate as the reference; forwarding budget formula in evidence.assumptions.",
+            "5 C15"),
     "C14": ("exploration",
             "deterministic simulation of populated topologies (5..16 nodes as seeded-scheduled tasks with MCU jitter): multicasts from every sender class to every level; application logs, chip ACK ground truth and sniffer compared at quiescence",
             "Seeded populated topologies with per-node allow_multicast / one relaying node; after each multicast the set of application logs that hold it is compared with the level membership, the chip model tells whether any transmission requested an ACK and the sniffer whether any ACK appeared, and the relaying node's re-broadcast is checked on the air.",
